@@ -84,6 +84,11 @@ CLAIMED = {
             "A contract at depth 1-3 calls 0x64/0x65/0x66 by CALL/CALLCODE/DELEGATECALL/STATICCALL on Istanbul..Cancun with payloads of length 0..400, canonical encodings with head/length words replaced by boundary values up to 2^256-1, truncations and random bytes; the host callbacks record exactly what they receive. Well-formed: exactly one callback with exactly the decoded arguments, return data = host answer, fee 5000, write attributed to the calling contract (other call kinds may refuse); malformed: no callback, failure, all gas consumed; host error propagates; pre-Berlin: no callback; never a panic.",
             "Non-canonical in-bounds encodings may be accepted or rejected; five deliberate lenient-success behaviours for truncated payloads are recorded as known findings.",
             "DESIGN.md §3 C14"),
+    "C15": ("exploration",
+            "online specification monitors over the step stream (shadow transient store journalled per frame; memmove/MSIZE/gas model for MCOPY) + differential against go-ethereum v1.12.0 with EIP-1153 at its own opcode bytes",
+            "Generated Cancun programs mixing TLOAD/TSTORE/MCOPY with all call kinds, reverts, re-entrancy and two transactions per state; call trees with static frames nested in static frames; a (dst,src,len) boundary grid incl. overlaps, zero length with huge offsets and out-of-range operands. Every TLOAD result is predicted by the shadow store (per address, restored on frame failure, empty per transaction); TSTORE in static context must fail with write protection; both cost 100; after each MCOPY memory = overlap-safe memmove on zero-extended memory, MSIZE and gas per EIP-5656; pre-Cancun the three bytes are invalid instructions; transient-storage programs agree with upstream Shanghai+EIP-1153.",
+            "EIP texts as published; upstream's EIP-1153 as differential reference; MCOPY content check needs the step's memory copy.",
+            "DESIGN.md §3 C15"),
 }
 
 # Properties not (yet) claimed. Reason must be current.
